@@ -7,7 +7,15 @@ NAMES = ['bnd:C16.parse_equals_fresh', 'bnd:C16.parse.total']
 def run(report):
     verify_keys(report, ['parso.cache._set_cache_item', 'parso.cache.load_module', 'parso.cache._load_from_file_system',
                          'parso.cache.try_to_save_module', 'parso.cache._NodeCacheItem.__init__',
-                         'parso.file_io.FileIO.get_last_modified'])
+                         'parso.file_io.FileIO.get_last_modified',
+                         # the API: whichever branch serves the request, the module is the tree of the text read, and what is
+                         # filed in the cache is filed with the lines it is the tree of
+                         'parso.grammar.Grammar.parse'])
+    report.assume("Grammar.parse: ghost tv(x) (identity of a text, shared by bytes / decoded string / list of lines) and "
+                  "Module.ver; the parser, the tokenizer and the diff parser are used through assumed contracts that state C01 / "
+                  "C09 / C04 for them (Parser.parse#api, _tokenize_lines#api, DiffParser.update#api), the callables stored in "
+                  "the grammar object are taken to be those PythonGrammar passes in; that load_module and try_to_save_module keep "
+                  "the 'tree of its lines' invariant of the memory cache is assumed on top of their verified contracts")
     report.assume("ghost environment of the cache VCs: cur_mtime(path) (the file's mtime now, only grows) and "
                   "ver_at(path, mtime) (content version; a function of mtime by the property's proviso); get_last_modified "
                   "returns cur_mtime; representation invariant of parser_cache is a precondition of load_module; that "
